@@ -9,6 +9,7 @@ from sim.core import substream
 from sim.install import CTX
 
 PROP = 'C13'
+TECHNIQUE = 'deterministic simulation: lock-step operation histories on three real adapters vs a dict model, with concurrent readers/writers under seeded schedules'
 LEVEL = 'exploration'
 RULE = ('one case = a seeded history (10..40 operations: upload, streamed upload, delete, exists, download, streamed download, prefix listing) '
         'over names built from path segments of printable ASCII and non-ASCII characters (prefix-free), applied in lock-step to the REAL Local '
